@@ -229,7 +229,7 @@ MUnwind(target, x, evict) ==
   /\ LET h == UnwindTo(target) - x
          gone == {t \in DOMAIN conf : conf[t] > h}
          ev == IF evict THEN {t \in DOMAIN txs : /\ txs[t].by \in par.live /\ ~txs[t].sweep /\ (t \notin DOMAIN conf \/ t \in gone)
-                                                  /\ \E o \in Ins(t) : o[1] \in gone}
+                                                  /\ \E o \in Ins(t) : o[1] \in gone \/ (t \notin gone /\ Spent(o) /\ SpenderOf(o) \in gone)}
                ELSE {}
      IN /\ h >= H0
         /\ Rewind(h, ev)
